@@ -1562,7 +1562,10 @@ func (s *Store) processLTXStreamFrame(ctx context.Context, frame *LTXStreamFrame
 	// remote lock must have expired or been released so we can clear it locally.
 	//
 	// We also hold the local WRITE lock so a local write cannot be in-progress.
-	if haltLock := db.RemoteHaltLock(); haltLock != nil {
+	//
+	// Files up to the position the lock was granted at are the ones the
+	// acquisition is still waiting for, they say nothing about the lock.
+	if haltLock := db.RemoteHaltLock(); haltLock != nil && hdr.MaxTXID > haltLock.Pos.TXID {
 		TraceLog.Printf("[ProcessLTXStreamFrame.Unhalt(%s)]: replica holds HALT lock but received LTX file, unsetting HALT lock", db.Name())
 		if err := db.unsetRemoteHaltLock(ctx, haltLock.ID, true); err != nil {
 			return fmt.Errorf("release remote halt lock: %w", err)
